@@ -322,6 +322,14 @@ def main():
         if not rel_errors:
             obligations.append(("translate:/repo -> Gen/*.lean", True, "changed: %s" % extract.get("changed")))
 
+        # informational: did the source regions the hand-written models were transcribed from move?
+        rc_b, out_b, _ = sh([sys.executable, os.path.join(VERIF, "extract", "basis.py")])
+        try:
+            for k in json.loads(out_b).get("changed", []):
+                notes.append("transcription basis changed since the model was written (not a violation by itself; the correspondence run decides): " + k)
+        except Exception:
+            pass
+
         harness_ok, wasm_ok = True, True
         rc, out, err = sh(["cargo", "build", "--offline"], cwd=HARNESS, timeout=3000)
         harness_ok = rc == 0
